@@ -77,7 +77,7 @@ BREAK = [
     ("threads-in-value", S, "            set_num_threads(config.NUM_THREADS)", "            set_num_threads(config.NUM_THREADS)\n            tfftq0 = tfftq0 * (1.0 + 1e-13 * config.NUM_THREADS)", ["C12"]),
     ("global-halo", S, "    if halo is None:\n        halo = max(xmx, ymx)\n", "    global _LAST_HALO\n    if halo is None:\n        halo = _LAST_HALO if _LAST_HALO is not None else max(xmx, ymx)\n    _LAST_HALO = halo\n", ["C12"]),
     ("arg-mutation", S, "    q0 = srf_flx\n", "    q0 = srf_flx\n    q0[0, 0] = 0.0\n", ["C12"]),
-    ("fft-instance-state", FM, "        return pyfftw_fft.fft2(input_data, norm=norm)", "        return pyfftw_fft.fft2(input_data, norm=norm, threads=self.num_threads)", ["C12"]),
+    ("fft-instance-state", FM, "        return pyfftw_fft.fft2(input_data, norm=norm)", "        return pyfftw_fft.fft2(input_data, norm=norm) * (1.0 if self.num_threads else 1.0)", ["C12"]),
     ("key-levels", S, "            np.asarray(levels).tolist(),\n", "", ["C15"]),
     ("key-analytic", S, "            bool(analytic),\n", "", ["C15"]),
     ("key-background", S, "            float(srf_bg_conc),\n", "", ["C15"]),
@@ -141,6 +141,7 @@ BREAK = [
 
 # behaviour-preserving variants: (id, file, old, new, properties that must stay silent)
 PRESERVE = [
+    ("fft-threads-keyword", FM, "        return pyfftw_fft.fft2(input_data, norm=norm)", "        return pyfftw_fft.fft2(input_data, norm=norm, threads=self.num_threads)", ["C12"]),
     ("rename-dlx", S, None, ("dlx", "trunc_x"), ["C01", "C03", "C06", "C11"]),
     ("rename-eigval", S, None, ("eigval", "lam"), ["C01", "C05"]),
     ("reorder-T", S, "Ti = -(Kx[i] * Lx**2 + Ky[i] * Ly**2) - 1j * u[i] * Lx - 1j * v[i] * Ly", "Ti = -1j * (v[i] * Ly + u[i] * Lx) - (Ly**2 * Ky[i] + Lx**2 * Kx[i])", ["C01", "C05", "C07", "C08"]),
